@@ -807,3 +807,62 @@ PROPS["C18"] = {
     "assumptions": ["wasm ContractInfo (admin, creator) is a parameter read from the real wasm keeper",
                     "the decorator sits directly after DeductFee (fact_C18_payout_after_fee_deduction, regenerated every run)"],
 }
+
+
+# ------------------------------------------------------------------------------------------------ C19 log / tx indices
+def oracle_c19(run, ops, impl):
+    out = []
+    nxt_log, nxt_tx, nlogs = 0, 0, 0
+    for i, (op, ob) in enumerate(zip(ops, impl)):
+        a = op.split()
+        if a[1] == "newblock":
+            nxt_log, nxt_tx, nlogs = 0, 0, 0
+            continue
+        if ob.startswith("panic"):
+            out.append(V("C19:panic", {"line": i + 1, "op": op}))
+            continue
+        f = ob.split()
+        if a[1] == "endblock":
+            kv = dict(x.split("=", 1) for x in f)
+            if kv["bloom"] != "union-of-%d-logs" % nlogs:
+                out.append(V("C19:block-bloom-is-not-the-union-of-log-blooms", {"line": i + 1, "obs": ob, "logs_emitted": nlogs}))
+            if plist(kv["ethTxs"]) != [str(x) for x in range(nxt_tx)]:
+                out.append(V("C19:eth-tx-indices-not-consecutive", {"line": i + 1, "got": kv["ethTxs"], "executed": nxt_tx}))
+            continue
+        res = f[0]
+        logs = [tuple(int(y) for y in x.split("/")) for x in plist(sec(f, "logs"))]
+        if a[1] == "eth":
+            if res == "failed" or res == "reverted":
+                if logs:
+                    out.append(V("C19:logs-from-reverted-or-failed-tx", {"line": i + 1, "op": op, "obs": ob}))
+            for (li, ti) in logs:
+                if ti != nxt_tx:
+                    out.append(V("C19:eth-log-carries-wrong-tx-index", {"line": i + 1, "op": op, "log": (li, ti), "tx_index": nxt_tx}))
+        kind = "eth" if a[1] == "eth" else a[2]
+        for (li, ti) in logs:
+            if li != nxt_log:
+                out.append(V("C19:log-index-not-consecutive:after-%s" % kind, {"line": i + 1, "op": op, "log_index": li, "expected": nxt_log}))
+                break
+            nxt_log += 1
+        nlogs += len(logs)
+        if len(logs) and logs[-1][0] + 1 > nxt_log:
+            nxt_log = logs[-1][0] + 1
+        if a[1] == "eth" and res in ("ok", "reverted"):
+            nxt_tx += 1
+    return out
+
+
+PROPS["C19"] = {
+    "modules": ["NibiruProofs.C19"],
+    "runs": [{"model": "logidx", "n_quick": 250, "n_thorough": 4000, "nontrivial": r"logs=\d+/\d+,"}],
+    "oracle": oracle_c19,
+    "rule": "each case is one block on the real EVM keeper (transient counters reset as Commit does): Ethereum txs to a logger "
+            "contract emitting 0–4 logs, succeeding / reverting / failing (gas below intrinsic), interleaved with ConvertCoinToEvm "
+            "(coin-born FunToken: one ERC20 mint log) — succeeding or failing — and CreateFunToken for a fresh bank coin (ERC20 "
+            "deployment logs), then EndBlock; observations: log index / tx index of every log in EventTxLog, BlockTxIndex and "
+            "BlockLogSize after every message, EventEthereumTx indices, and whether EventBlockBloom equals the union of the blooms of "
+            "all emitted logs; non-trivial = some operation emitted at least two logs",
+    "assumptions": ["messages run on a branched context that is dropped on error (as baseapp does)",
+                    "the model takes the updateBlockBloom argument of each call site from the regenerated facts (fact_C19_all_sites_pass_log_index)",
+                    "ERC20-born conversions (convertCoinToEvmBornERC20) are covered by the facts and the theorem, not yet by the generator"],
+}
